@@ -463,6 +463,7 @@ func policyMatrix(run *vk.Run, id *age.X25519Identity, seed int64) {
 		wc.Close()
 		stalledSource(run, id, buf.Bytes(), pt, n)
 	}
+	longHeaderLines(run, id, rng)
 	sizes := []int{0, 1, 65536, 65537, 131072}
 	if run.Thorough() {
 		sizes = append(sizes, 65535, 196608, 200001)
@@ -602,6 +603,56 @@ func readAhead(run *vk.Run, id *age.X25519Identity, file, pt []byte, n int) {
 		if err != nil {
 			return
 		}
+	}
+}
+
+// longArg is a recipient whose stanza has one argument of n characters (a line longer than any line buffer).
+type longArg struct{ n int }
+
+func (l longArg) Wrap(fileKey []byte) ([]*age.Stanza, error) {
+	return []*age.Stanza{{Type: "long", Args: []string{strings.Repeat("a", l.n)}, Body: []byte{1, 2, 3}}}, nil
+}
+
+// longHeaderLines: a valid file whose header has a stanza line of 4000..70000 characters decrypts to the same plaintext
+// through every kind of source: plain, one byte at a time, buffered with buffers smaller and larger than the line.
+func longHeaderLines(run *vk.Run, id *age.X25519Identity, rng *rand.Rand) {
+	pt := make([]byte, 1000)
+	rng.Read(pt)
+	for _, n := range []int{4000, 4084, 4085, 4086, 4087, 4096, 8192, 70000} {
+		var buf bytes.Buffer
+		wc, err := age.Encrypt(&buf, longArg{n}, id.Recipient())
+		if err != nil {
+			vk.Infra("%v", err)
+		}
+		wc.Write(pt)
+		wc.Close()
+		file := buf.Bytes()
+		var first string
+		for ki, kind := range rd.SourceKinds {
+			r, err := age.Decrypt(rd.New(kind, file), id)
+			var got []byte
+			if err == nil {
+				got, err = io.ReadAll(r)
+			}
+			run.Eval(1)
+			res := "ok"
+			if err != nil || !bytes.Equal(got, pt) {
+				res = fmt.Sprintf("error: %v", err)
+			}
+			if ki == 0 {
+				first = res
+			}
+			sig := fmt.Sprintf("long-header-line:%d", n)
+			if res != first {
+				run.Violation("C12:result-depends-on-delivery:"+sig, fmt.Sprintf("a valid file with a %d-character stanza line: source %s gives %q, source %s gives %q", n, rd.SourceKinds[0], first, kind, res), map[string]interface{}{"check": "C12.longline", "n": n, "kind": kind})
+				break
+			}
+			if res != "ok" {
+				run.Violation("C12:valid-file-fails:"+sig, fmt.Sprintf("a valid file with a %d-character stanza line does not decrypt (%s source): %s", n, kind, res), map[string]interface{}{"check": "C12.longline", "n": n, "kind": kind})
+				break
+			}
+		}
+		run.Distinct(fmt.Sprintf("long-header-line:%d", n))
 	}
 }
 
